@@ -40,7 +40,7 @@ impl DrawTarget for Tiny {
 }
 
 const POINTS: [(i32, i32); 14] = [(0, 0), (1, 0), (4, 2), (12, 6), (13, 6), (12, 7), (-1, 0), (0, -1), (13, 0), (0, 7), (i32::MIN, 0), (0, i32::MAX), (i32::MAX, i32::MAX), (6, 5)];
-const INDICES: [usize; 12] = [0, 1, 7, 8, 9, 15, 16, 63, 64, usize::MAX / 2 + 1, usize::MAX - 1, usize::MAX];
+const INDICES: [usize; 14] = [0, 1, 7, 8, 9, 15, 16, 63, 64, usize::MAX / 3 + 1, usize::MAX / 3 * 2 + 2, usize::MAX / 2 + 1, usize::MAX - 1, usize::MAX];
 
 fn main() {
     let mut ops = 0u64;
